@@ -174,6 +174,19 @@ fn run_step(step: &Value, pool_opt: &[Option<Ex>]) -> ExResult<Ex> {
                 }),
             })
         }
+        "partial_relaxed" => {
+            let e = &pool[idx(step, "i", pool_opt)?];
+            let k = step["k"].as_u64().unwrap_or(0) as usize;
+            let mode = match step["mode"].as_str().unwrap_or("error") {
+                "per_operand" => exmex::MissingOpMode::PerOperand,
+                "none" => exmex::MissingOpMode::None,
+                _ => exmex::MissingOpMode::Error,
+            };
+            Ok(match e {
+                Ex::Flat(f) => Ex::Flat(f.clone().partial_relaxed(k, mode)?),
+                Ex::Deep(d) => Ex::Deep(d.clone().partial_relaxed(k, mode)?),
+            })
+        }
         "reparse" => {
             let e = &pool[idx(step, "i", pool_opt)?];
             let text: &'static str = intern(&e.text());
